@@ -49,7 +49,7 @@ def check(tier, seed, t0):
             if i in (0, 5):
                 samples.append(e)
     nev = sum(per_key.values())
-    if fam_events < 10 * nproc or len(per_key) < 100 or any(v != 2 * nproc for v in per_key.values()):
+    if fam_events < 10 * nproc or len(per_key) < 100 or any(v % (2 * nproc) != 0 for v in per_key.values()):
         raise vf.ToolError("determinism workload is vacuous or unbalanced: %d keys, %d family events" % (len(per_key), fam_events))
     tres, rejected = vf.validate_trace("C20_trace", "Trace_Memo", {}, trace, timeout=1800)
     mism = []
